@@ -171,10 +171,17 @@ pub fn run(ctx: &mut Ctx) {
         (ConnectScript::DelayedOk { ms: 30_000 }, "delay:30000".into()),
         (ConnectScript::DelayedOk { ms: 30_001 }, "delay:30001".into()),
     ];
-    let clients = vec![("user".to_string(), "pass".to_string()), ("u\u{e9}".to_string(), "p:w d".to_string())];
+    let clients = vec![("user".to_string(), "pass".to_string()), ("u\u{e9}".to_string(), "p:w d".to_string()), ("Alice".to_string(), "S3cret".to_string())];
     let valid = b64("user:pass");
     let hdr_pool: Vec<(Option<Vec<u8>>, &str)> = vec![
         (None, "absent"),
+        // user names and passwords are compared as configured: other spellings of a configured pair are other pairs
+        (Some(format!("Basic {}", b64("Alice:S3cret")).into_bytes()), "valid3"),
+        (Some(format!("Basic {}", b64("alice:S3cret")).into_bytes()), "user_lower_cased"),
+        (Some(format!("Basic {}", b64("ALICE:S3cret")).into_bytes()), "user_upper_cased"),
+        (Some(format!("Basic {}", b64("Alice:s3cret")).into_bytes()), "pass_lower_cased"),
+        (Some(format!("Basic {}", b64("User:pass")).into_bytes()), "user_capitalised"),
+        (Some(format!("Basic {}", b64("user:pass ")).into_bytes()), "pass_with_space"),
         (Some(format!("Basic {}", valid).into_bytes()), "valid"),
         (Some(format!("Basic {}", b64("u\u{e9}:p:w d")).into_bytes()), "valid2"),
         (Some(format!("Basic {}", b64("user:wrong")).into_bytes()), "wrong_pass"),
@@ -251,8 +258,20 @@ pub fn run(ctx: &mut Ctx) {
         let mut parse_ok = true;
         if proto == "h1" {
             let r = &reqs[0];
-            let target = if r.method == "CONNECT" { r.authority.clone() } else { format!("http://{}/p?q=1", r.authority) };
+            // a CONNECT target is usually the bare authority; a client may also send it origin-form (the authority in Host) or
+            // absolute-form - the destination is the same authority, with or without a port
+            let form = if r.method == "CONNECT" && !r.authority.starts_with('_') && r.authority.parse::<http::uri::Authority>().is_ok() { ctx.rng.below(4) } else { 0 };
+            let target = match (r.method.as_str(), form) {
+                ("CONNECT", 1) => "/".to_string(),
+                ("CONNECT", 2) => format!("http://{}/", r.authority),
+                ("CONNECT", _) => r.authority.clone(),
+                _ => format!("http://{}/p?q=1", r.authority),
+            };
             let mut raw = format!("{} {} HTTP/1.1\r\n", r.method, target).into_bytes();
+            if form == 1 || form == 2 {
+                raw.extend_from_slice(format!("Host: {}\r\n", r.authority).as_bytes());
+                ctx.stat(if form == 1 { "h1_connect_origin_form" } else { "h1_connect_absolute_form" });
+            }
             if let Some(h) = &r.hdr {
                 raw.extend_from_slice(b"Proxy-Authorization: ");
                 raw.extend_from_slice(h);
@@ -616,10 +635,13 @@ pub fn run_h3(ctx: &mut Ctx) {
         (ConnectScript::Other, "other".into()),
         (ConnectScript::AuthenticationFailure, "authentication".into()),
     ];
-    let clients = vec![("user".to_string(), "pass".to_string()), ("u\u{e9}".to_string(), "p:w d".to_string())];
+    let clients = vec![("user".to_string(), "pass".to_string()), ("u\u{e9}".to_string(), "p:w d".to_string()), ("Alice".to_string(), "S3cret".to_string())];
     let valid = b64("user:pass");
     let hdr_pool: Vec<Option<Vec<u8>>> = vec![
         None,
+        Some(format!("Basic {}", b64("Alice:S3cret")).into_bytes()),
+        Some(format!("Basic {}", b64("alice:S3cret")).into_bytes()),
+        Some(format!("Basic {}", b64("Alice:s3cret")).into_bytes()),
         Some(format!("Basic {}", valid).into_bytes()),
         Some(format!("Basic {}", b64("u\u{e9}:p:w d")).into_bytes()),
         Some(format!("Basic {}", b64("user:wrong")).into_bytes()),
